@@ -37,16 +37,6 @@ import prysm.polynomials as P
 from prysm.conf import config
 
 ID = 'C08'
-ASSUMPTIONS = [
-    'the scalar-order function of each family is taken as the definition of the mode (the relation C08 states); '
-    'whether the scalar functions are the textbook polynomials is C07/C09',
-    'xy / xy_seq with cartesian_grid=True are exercised only on 2-D meshgrid coordinates, the precondition that flag asserts '
-    '(on 0-D/1-D/3-D input xy() forms an outer product and xy_seq() does not; with cartesian_grid=False every shape is exercised)',
-    'orders are passed as Python lists of int, (n, m) pairs as lists of tuples',
-    'the threshold-order, dtype/precision and mixed-dtype/open-grid units are alphabets (finite lists), not closed over subsets of orders',
-    'integer coordinates are enumerated only where they are in the domain and the scalar family is integer-valued (Hermite, Dickson with integer '
-    'alpha, XY); open grids only for xy_seq -- see INT_COORDS / OPEN_GRID and the report for what the current tree does elsewhere',
-]
 
 TOL_K = 64         # honest seq-vs-scalar difference on the pinned tree is <= 1.7 eps * cond * mode scale (margin > 35x)
 CHUNK = 32          # cases per work item: small, so that the 40-violations-per-item cap of the explorer does not hide signatures
@@ -118,11 +108,28 @@ DTYPE_EXEMPT = {
           'function uses with a Python int; after that zernike_nm returns float64 for float32 input, on a cold cache float32 (history-dependent dtype)'
        for n in ('zernike_nm_seq', 'zernike_nm_der_seq')},
 }
-# families for which integer coordinate arrays are enumerated (integer-valued polynomials: the scalar functions return exact integers)
-INT_COORDS = {'hermite_He_seq': [[]], 'hermite_He_der_seq': [[]], 'hermite_H_seq': [[]], 'hermite_H_der_seq': [[]],
-              'dickson1_seq': [[-1], [0]], 'dickson2_seq': [[-1], [0]]}
-OPEN_GRID = {'xy_seq'}      # two-coordinate families for which (1,N) x (M,1) coordinates are enumerated
+# families (and parameter values) for which integer coordinate arrays are enumerated: every scalar one-index function accepts them
+INT_COORDS = {n: ONE[n][2] for n in ONE}
+INT_PAIRS = {'xy_seq', 'Q2d_seq'}        # two-coordinate families whose scalar function accepts integer coordinates
+OPEN_GRID = {'xy_seq', 'Q2d_seq'}        # two-coordinate families for which (1,N) x (M,1) coordinates are enumerated
 SHORT = {'float64': 'f64', 'float32': 'f32', 'complex128': 'c128', 'int64': 'i64'}
+
+ASSUMPTIONS = [
+    'the scalar-order function of each family is taken as the definition of the mode (the relation C08 states); '
+    'whether the scalar functions are the textbook polynomials is C07/C09',
+    'xy / xy_seq with cartesian_grid=True are exercised only on 2-D meshgrid coordinates, the precondition that flag asserts '
+    '(on 0-D/1-D/3-D input xy() forms an outer product and xy_seq() does not; with cartesian_grid=False every shape is exercised)',
+    'orders are passed as Python lists of int, (n, m) pairs as lists of tuples',
+    'the threshold-order, dtype/precision and mixed-dtype/open-grid units are alphabets (finite lists), not closed over subsets of orders',
+    'integer (int64) coordinates are enumerated for every family whose scalar function accepts them: all one-index families, xy and Q2d; '
+    'zernike_nm / zernike_nm_der raise on integer r (in-place float update of an integer array), so the Zernike sequences have no integer oracle',
+    'open grids (x or r of shape (1,N), y or t of shape (M,1)) are enumerated for xy_seq and Q2d_seq; zernike_nm raises on them for m != 0 '
+    '(in-place update of an array shaped like r), so there is no oracle; Q2d(n, 0, r, t) ignores t and returns r-shaped data, which is broadcast '
+    'to the common shape before stacking',
+    'the dtype of the stack must equal the common dtype of the scalar results, except for the float32 inconsistencies of the current tree '
+    'listed in DTYPE_EXEMPT (dtype is not part of the statement): ' + '; '.join(f'{k}: {v}' for k, v in sorted(DTYPE_EXEMPT.items()) if k in ('cheby1_seq', 'Qbfs_seq', 'Q2d_seq', 'zernike_nm_seq'))
+    + ' (same for the other cheby*_seq and zernike_nm_der_seq)',
+]
 
 
 # ---------------------------------------------------------------------------------------------
@@ -211,12 +218,16 @@ def honest_ratio(got, want, eps, cond=None):
     return float(np.nanmax(np.abs(g - w) / (eps * scale))) if g.size else 0.0
 
 
-def stack_scalar(R, outs, shape, sname):
-    """Stack validated scalar-function outputs into the expected array; None when the scalar side failed."""
+def stack_scalar(R, outs, shape, sname, broadcast=False):
+    """Stack validated scalar-function outputs into the expected array; None when the scalar side failed.
+
+    broadcast=True (open grids): a scalar result that depends on one coordinate only is broadcast to the common shape."""
     if any(o is FAILED for o in outs):
         return None
     try:
         arrs = [np.asarray(o) for o in outs]
+        if broadcast:
+            arrs = [np.broadcast_to(a, shape) if a.shape != tuple(shape) and np.broadcast_shapes(a.shape, tuple(shape)) == tuple(shape) else a for a in arrs]
         for a in arrs:
             if a.shape != tuple(shape) or a.dtype.kind not in 'fiuc':
                 R.violation(f'{sname}:shape', f'{sname} returned shape {a.shape} dtype {a.dtype} for coordinates of shape {tuple(shape)}')
@@ -405,7 +416,7 @@ def run_two(case, seed, R):
                     continue
                 want = stack_scalar(R, outs, (2, *shape), sname)
             else:
-                want = stack_scalar(R, outs, shape, sname)
+                want = stack_scalar(R, outs, shape, sname, broadcast=sa != sb)
             if want is None:
                 if exc is not None:
                     R.violation(f'{name}:raises', exc)
@@ -539,7 +550,8 @@ def second_wave(tier):
                     dt_cases.append({'f': n, 'par': par, 'ns': ns, 'shapes': two_shapes, 'dtypes': ['float64', 'int64'], 'prec': prec, 'int': 1})
     # (3) two-coordinate families: mixed dtypes, open grids
     mix = [['float64', 'float64'], ['float32', 'float64'], ['float64', 'float32']]
-    mix_xy = mix + [['int64', 'float64'], ['float64', 'int64'], ['int64', 'int64'], ['complex128', 'float64'], ['float32', 'complex128']]
+    mix_int = [['int64', 'float64'], ['float64', 'int64'], ['int64', 'int64']]
+    mix_xy = mix + mix_int + [['complex128', 'float64'], ['float32', 'complex128']]
     two_cases = []
     for prec in (64, 32):
         for name, (sname, kwname, variants, pool, extra) in TWO.items():
@@ -548,7 +560,7 @@ def second_wave(tier):
             for v in variants:
                 grid = name == 'xy_seq' and v is True
                 cfg = []
-                for da, db in (mix_xy if name == 'xy_seq' else mix):
+                for da, db in (mix_xy if name == 'xy_seq' else (mix + mix_int if name in INT_PAIRS else mix)):
                     for sh in (([3, 4],) if grid else ([5], [3, 4])):
                         cfg.append([sh, sh, da, db])
                     if name in OPEN_GRID:
@@ -562,11 +574,11 @@ def second_wave(tier):
                   'must match the scalar function exactly', reset=reset_poly_caches, chunk=4),
         ScopeUnit('dtype_precision', dt_cases, run_one,
                   f'coordinate-dtype alphabet: every one-index *_seq x order lists {DTYPE_ORDERS} x config.precision {{64, 32}} x coordinates '
-                  '{float64, float32, complex128} (+ int64 for ' + ', '.join(sorted(INT_COORDS)) + ') on the 1-D point set and a (3,4) grid; values as the scalar '
+                  '{float64, float32, complex128}, and int64 (integers of the domain) x every parameter value, on the 1-D point set and a (3,4) grid; values as the scalar '
                   'function, and the dtype of the stack = common dtype of the scalar results (exempt: ' + ', '.join(sorted(DTYPE_EXEMPT)) + ')',
                   reset=reset_poly_caches, chunk=CHUNK),
         ScopeUnit('mixed_coords', two_cases, run_two,
                   'two-coordinate families x config.precision {64, 32} x lists {each pool pair alone, the sorted pool, two 3-lists}: the two coordinate arrays '
-                  f'differ in dtype {mix} (xy_seq also {mix_xy[3:]}) on (5,) and (3,4) coordinates, and for ' + ', '.join(sorted(OPEN_GRID)) +
-                  ' open grids x (1,4) / y (3,1); expected shape = broadcast shape, values and dtype as the scalar function', reset=reset_poly_caches, chunk=CHUNK),
+                  f'differ in dtype {mix} (' + ', '.join(sorted(INT_PAIRS)) + f' also {mix_int}, xy_seq also {mix_xy[6:]}) on (5,) and (3,4) coordinates, and for '
+                  + ', '.join(sorted(OPEN_GRID)) + ' open grids x|r (1,4) / y|t (3,1); expected shape = broadcast shape, values and dtype as the scalar function', reset=reset_poly_caches, chunk=CHUNK),
     ]
